@@ -60,6 +60,9 @@ CHECKS["C10"] = ("fvh-inproc", "exhaustive fault injection over the write calls 
          "in-process with cfg(ferrous_verif) hooks. A: for generated datasets every write call of a save (all n while a save makes <= 3000 writes) is made to fail, as io::Error in SAVE, io::Error in BGSAVE and a panic in the BGSAVE thread; after each the previous dump must be byte-identical, the in-progress flag clear, and finally a plain save must load back to the dataset. B: the save thread is parked before a key is read, between its value and TTL reads, and inside the sorted-set encoder while generated mutations are applied; the file must load and hold a (value, TTL) state the key really had. C: every prefix and every single-byte substitution of valid dumps, plus spliced absurd length headers, under catch_unwind, watchdog and counting allocator.",
          "fault points are write-call failures (no fsync exists to lose); race windows are the three read steps the writer has; allocation bound 1 MiB + 64 x file length", "3/C10")
 LEVEL = {"C10": "fault_enumeration"}
+CHECKS["C11"] = ("fvh-blackbox", "generated histories with an independent AOF decoder, redo differential against a second server, log-vs-execution subsequence oracle",
+         "generated multi-connection histories over the write catalogue through four paths (direct, MULTI/EXEC, scripts incl. EVALSHA, blocked pops served by a push) with SELECT, random-outcome and failing commands against a server with appendonly on; after every step the AOF on disk must decode into whole command frames; at the end the frames are replayed in file order into an empty server and the canonical dumps of all 16 databases must be equal; the log minus SELECT frames must be a subsequence of the executed commands in execution order (random outcomes in outcome-preserving form).",
+         "durability (fsync) is not observable and not claimed; the harness replays the log itself because the server's own start-up replay is a no-op; a step without reply is inconclusive (liveness is C06's)", "3/C11")
 
 checks = []
 for i in ids:
